@@ -384,6 +384,21 @@ def main(tier):
             jobs.append(("dseq", ["2012-03-06", "".join(t.lstrip("+-") for t in toks).replace("1w", "7d"), "2014-03-06"], None, "many duration components"))
             jobs.append(("dround", ["2012-03-06"] + ["Mon" if i % 2 else "+1d" for i in range(n)], None, "many duration components"))
             jobs.append(("dround", ["-S"] + ["/1h" if i % 2 else "/30m" for i in range(n)], "x 2012-03-06T10:11:12 y\n", "many duration components"))
+        # duration lines on stdin (the date on the command line): counts that do not fit, with more text behind them on the line, between
+        # good lines -- what the parser kept from a refused line must not reach the next one (it points into the line buffer)
+        ovf = ["3000000000 5d", "99999999999999999999d 2d", "2147483648d 7d", "-3000000000 1w", "4294967296d1d", "1d 99999999999d 3d", "9223372036854775808s 1d"]
+        good = [("1d", 1), ("2d", 2), ("1w", 7), ("-1d", -1), ("10d", 10), ("3d", 3)]
+        for rep_ in (1, 400, 5000):
+            if quick and rep_ == 5000:
+                continue
+            lines_, want_ = [], []
+            for i in range(rep_ * len(ovf)):
+                lines_.append(ovf[i % len(ovf)])
+                g = good[i % len(good)]
+                lines_.append(g[0])
+                want_.append((datetime.date(2012, 1, 1) + datetime.timedelta(days=g[1])).isoformat())
+            for sedm in ([], ["-S"]):
+                jobs.append(("dadd", sedm + ["2012-01-01"], "\n".join(lines_) + "\n", "duration lines on stdin\0" + "\n".join(want_ if not sedm else [x for pair in zip([o for o in lines_[::2]], want_) for x in pair])))
         jobs = [j for j in jobs if os.path.exists(b.tool(j[0]))]
 
         def tool_job(j):
@@ -405,6 +420,13 @@ def main(tier):
                     continue
                 tool, argv, stdin, role, rc, err, out = res
                 nrun += 1
+                if role.startswith("duration lines on stdin"):
+                    role, want_text = role.split("\0", 1)
+                    if rc not in (99, 124) and 0 <= rc < 128 and out.decode("latin-1") != want_text + "\n":
+                        ol, wl = out.decode("latin-1").split("\n"), want_text.split("\n")
+                        k_ = next((i for i in range(min(len(ol), len(wl))) if ol[i] != wl[i]), min(len(ol), len(wl)))
+                        rep.disagree("dadd duration lines on stdin: an accepted line's result depends on a refused line before it",
+                                     {"argv": argv, "first_difference_at_output_line": k_, "got": ol[k_:k_ + 2], "want": wl[k_:k_ + 2], "lines": len(wl)})
                 bad = rc == 99 or rc == 124 or rc < 0 or rc >= 128
                 if role == "sed mode, touching values" and not bad:
                     nin = (stdin or "").count("\n")
